@@ -14,6 +14,7 @@ import DfolsVerif.Proofs.RunsAcc
 import DfolsVerif.Proofs.CountAcc
 import DfolsVerif.Gen.ExitSites
 import DfolsVerif.Proofs.RestartGuards
+import DfolsVerif.Proofs.MainLoopPaths
 
 namespace Dfols
 namespace C10
@@ -201,6 +202,31 @@ theorem C10_soft_refusal (nruns last maxUnsucc nf maxfun : Int) :
 example : (Gen.exitSites.filter (·.flag = "EXIT_MAXFUN_WARNING")).length = 3 ∧
     (Gen.exitSites.filter (·.msg = "Objective is sufficiently small")).length = 4 ∧
     (Gen.exitSites.filter (·.msg = "rho has reached rhoend")).length = 2 := by decide +kernel
+
+/-! ### layer G: the control-flow skeleton of solve_main's main loop (translated from the AST on every run) -/
+
+/-- **`nruns` is one more than the number of restarts, at the source**: for EVERY execution of the main-loop body (every outcome
+    of every test; `Skel.Exec` over the skeleton `Gen.mainLoop` translated from solver.py): leaving the loop increments
+    `nruns_so_far` exactly once; going on to the next iteration either touches nothing, or performs exactly one soft restart
+    together with exactly one increment, one `current_iter = -1` and one rescaling of rhoend; an exception leaves the counter
+    alone; the body never falls off its end; no other statement writes `nruns_so_far`, `current_iter` (besides `+= 1`) or `rhoend`.
+    With the translated x0 block / loop prelude this is the rule `RunsAcc` enforces on traces (`C10_nruns`). -/
+theorem C10_src_nruns_once {tr : List String} {e : Skel.Ending} (hx : Skel.Exec Gen.mainLoop tr e) :
+    (e = .brk → tr.count "nruns" = 1 ∧ tr.count "iter0" = 0 ∧ tr.count "rhoend" = 0 ∧ tr.count "soft" ≤ 1) ∧
+    (e = .cont → (tr.count "soft" = 0 ∧ tr.count "nruns" = 0 ∧ tr.count "iter0" = 0 ∧ tr.count "rhoend" = 0) ∨
+                 (tr.count "soft" = 1 ∧ tr.count "nruns" = 1 ∧ tr.count "iter0" = 1 ∧ tr.count "rhoend" = 1)) ∧
+    (e = .raise → tr.count "nruns" = 0 ∧ tr.count "soft" = 0) ∧
+    e ≠ .fall ∧ tr.any MainLoopPaths.isOther = false :=
+  MainLoopPaths.runs_trace hx
+
+/-- after the loop: the final-result query, then the `return` that hands `nruns_so_far` and `exit_info` back -/
+theorem C10_src_after_loop :
+    Gen.afterLoop = ["final", "return:(x, rvec, obj, jacmin, nsamples, control.nf, control.nx, nruns_so_far, exit_info, diagnostic_info, x_eval_num, jac_eval_nums)"] := by
+  decide +kernel
+
+/-- non-vacuity: the skeleton is the whole loop body (> 400 nodes) and has executions of all five kinds -/
+example : (Skel.reach MainLoopPaths.mRuns Gen.mainLoop MainLoopPaths.q0Runs).length = 5 ∧ Skel.size Gen.mainLoop > 400 :=
+  MainLoopPaths.nonvacuous
 
 end C10
 end Dfols
